@@ -27,13 +27,13 @@ TRUSTED = [
     "BaseInput.needs_sorting and bisect.bisect_left over abstract histories (top-level groups as items, times as "
     "integers in 1/8 s, definition names as ids); tied by the correspondence run (onsets, event_list "
     "start/end/end_time/contents, base, contexts, hed_strings per row)",
-    "DataFrame.sort_values in sort_dataframe_by_onsets is modelled as a stable sort; numpy's quicksort is not "
-    "stable for ties (observed on this machine), so the contents of one time point are compared as multisets and "
-    "histories whose meaning depends on the tie order (same definition name in two different rows of one time "
-    "point -- rejected by the onset validator) are generated only inside a single row",
+    "DataFrame.sort_values(kind='stable') in sort_dataframe_by_onsets is modelled as a stable insertion sort: the "
+    "order inside a time point is the file order (kept rows first, then the Delay-shifted groups in file order); "
+    "event_list, base, contexts and hed_strings are compared as SEQUENCES",
     "parsing/assembly (HedString, find_top_level_tags, TabularInput/Sidecar assembly, shrink_defs) and "
     "HedTag.value_as_default_unit are trusted to deliver the top-level groups and exact dyadic values the "
-    "generator wrote (they are other properties' subject); HedTagManager.get_hed_objs is checked on the "
+    "generator wrote (they are other properties' subject; a Delay whose unit has no conversion to seconds is not "
+    "shifted and is an item without delay in the model); HedTagManager.get_hed_objs is checked on the "
     "implementation side only",
 ]
 ASSUMPTIONS = [
@@ -61,6 +61,7 @@ _state = {}
 
 
 def env():
+    """Schema and definitions; loaded once in the parent before the Pool forks."""
     if not _state:
         import warnings
         warnings.filterwarnings("ignore")
@@ -96,12 +97,15 @@ def name_text(x, sp):
 def parts_of(it):
     """(parts of the top-level group or None for a bare plain annotation, index of the temporal tag)."""
     dl, k, x, sp = it
+    # a Delay whose unit has no conversion to seconds is NOT shifted: the group stays in its row (model: no delay)
+    stuck = dl is None and (sp & 0xC0) == 0xC0
+    stuck_txt = ["Delay/2 month", "Delay/1 year"][(sp >> 3) % 2]
     if k == "P":
-        if dl is None:
+        if dl is None and not stuck:
             return None, None
         txt = PLAIN[x % len(PLAIN)]
         inner = txt if (txt.startswith("(") and txt.count("(") == 1) else "(" + txt + ")"
-        return [f"Delay/{time_text(dl, sp >> 3)}", inner], None
+        return [stuck_txt if stuck else f"Delay/{time_text(dl, sp >> 3)}", inner], None
     if k == "N":
         parts = ["Def/" + name_text(x, sp), "Onset"]
         if sp & 2:
@@ -112,6 +116,8 @@ def parts_of(it):
         parts = [f"Duration/{time_text(x, sp)}", INNER[(sp >> 5) % len(INNER)]]
     if dl is not None:
         parts.append(f"Delay/{time_text(dl, sp >> 3)}")
+    elif stuck:
+        parts.append(stuck_txt)
     r = (sp >> 2) % len(parts)
     parts = parts[r:] + parts[:r]
     tidx = [i for i, p in enumerate(parts) if p in ("Onset", "Offset") or p.startswith("Duration/")][0]
@@ -140,8 +146,8 @@ def plain_text(it):
     return item_text(it).replace(", ", ",")
 
 
-def split_top(s):
-    """Top-level comma split of a HED string -> sorted list of trimmed non-empty pieces."""
+def split_top(s, sort=True):
+    """Top-level comma split of a HED string -> list of trimmed non-empty pieces (sorted unless sort=False)."""
     out, depth, cur = [], 0, []
     for ch in s:
         if ch == "(":
@@ -154,7 +160,8 @@ def split_top(s):
         else:
             cur.append(ch)
     out.append("".join(cur).strip())
-    return sorted(x for x in out if x)
+    out = [x for x in out if x]
+    return sorted(out) if sort else out
 
 
 # ---------------------------------------------------------------- implementation side
@@ -250,17 +257,6 @@ def post_rows(case):
         kept.append((o, [it for it in its if it[0] is None]))
         app += [(o + it[0], [it]) for it in its if it[0] is not None]
     return kept + app
-
-
-def tie_sensitive(case):
-    """The same definition name marked in two different pieces of one time point: meaning depends on tie order."""
-    seen = {}
-    for idx, (t, its) in enumerate(post_rows(case)):
-        for it in its:
-            if it[1] in "NF":
-                if seen.setdefault((t, it[2]), idx) != idx:
-                    return True
-    return False
 
 
 def time_points(case):
@@ -403,18 +399,19 @@ def compare(case, r, m, ids):
     m_on = [int(x[0]) for x in m[1]]
     if m_on != r["onsets"]:
         return [f"onsets impl={r['onsets']} model={m_on}"]
+    # since /repo sorts with a stable sort the order inside a time point is the file order: compare as sequences
     for i in range(len(m_on)):
-        mev = sorted(([int(e[0]), None if e[1] == "-" else int(e[1]), None if e[2] == "-" else int(e[2]),
-                       contents_text(ids[int(e[3])])] for e in m[2][i]), key=repr)
-        iev = sorted(([e[0], e[1], e[3], e[4]] for e in r["events"][i]), key=repr)
+        mev = [[int(e[0]), None if e[1] == "-" else int(e[1]), None if e[2] == "-" else int(e[2]),
+                contents_text(ids[int(e[3])])] for e in m[2][i]]
+        iev = [[e[0], e[1], e[3], e[4]] for e in r["events"][i]]
         if mev != iev:
             diffs.append(f"event_list[{i}] impl={iev} model={mev}")
         for key, col in (("base", 3), ("contexts", 4)):
-            mm = sorted(sum((split_top(contents_text(ids[int(x[1])])) for x in m[col][i]), []))
-            if mm != split_top(r[key][i]):
+            mm = sum((split_top(contents_text(ids[int(x[1])]), sort=False) for x in m[col][i]), [])
+            if mm != split_top(r[key][i], sort=False):
                 diffs.append(f"{key}[{i}] impl={r[key][i]!r} model={mm}")
-        mh = sorted(sum((split_top(plain_text(ids[int(x)])) for x in m[5][i]), []))
-        if mh != split_top(r["hed"][i]):
+        mh = sum((split_top(plain_text(ids[int(x)]), sort=False) for x in m[5][i]), [])
+        if mh != split_top(r["hed"][i], sort=False):
             diffs.append(f"hed_strings[{i}] impl={r['hed'][i]!r} model={mh}")
     return diffs[:4]
 
@@ -433,10 +430,7 @@ def work_one(arg):
         h.append("impl-" + r["exn"])
     out = {"bad": [(v["clause"], v["detail"]) for v in probe.violations], "hist": h, "diffs": None, "skipped": 0}
     if m is not None:
-        if ordered(case) and tie_sensitive(case):
-            out["skipped"] = 1
-        else:
-            out["diffs"] = compare(case, r, m, ids)
+        out["diffs"] = compare(case, r, m, ids)
     return out
 
 
@@ -469,10 +463,22 @@ CORPUS = [
     mk([[0, [[None, "F", 1, 0]]], [8, []]]),
     mk([[0, []], [None, [[None, "P", 0, 0]]], [8, []]]),
     mk([[0, [[None, "U", 480, 4]]], [480, [[None, "P", 3, 0]]], [488, []]]),
+    # one row with several Delay groups: Green, (Def/Alpha,Onset,Delay/1.5 s), (Delay/2.5 s,Duration/1 s,(..)), ...
+    mk([[0, [[None, "P", 0, 0], [12, "N", 1, 0], [20, "U", 8, 4]]], [8, [[None, "P", 0, 0]]], [40, [[None, "P", 1, 0]]]]),
+    mk([[0, [[8, "N", 1, 2], [8, "N", 2, 0], [16, "F", 1, 0], [24, "P", 1, 0], [4, "U", 8, 0]]], [32, []]], mode=1),
+    mk([[0, [[8, "N", 1, 0]]], [0, [[8, "U", 4, 0], [12, "P", 0, 0]]], [4, [[4, "N", 2, 0], [12, "F", 1, 0]]], [8, []]],
+       mode=2),
+    # an open process at the end of a file that gained Delay rows (end = number of rows AFTER shifting)
+    mk([[0, [[None, "N", 1, 0], [4, "P", 0, 0], [12, "P", 1, 0]]], [8, [[4, "N", 2, 0]]], [16, []]]),
+    # Delay with a unit that has no conversion to seconds: the group stays in its row
+    mk([[0, [[None, "N", 1, 0xC2], [None, "P", 0, 0xC0]]], [8, [[None, "U", 8, 0xC8]]], [16, [[None, "F", 1, 0xC0]]]]),
+    # equal-onset rows that mark the same name (not a valid file): stable order = file order
+    mk([[0, [[None, "N", 1, 0]]], [0, [[None, "F", 1, 0]]], [0, [[None, "N", 1, 2]]], [8, [[None, "F", 1, 0]]]]),
+    mk([[0, [[8, "N", 1, 0]]], [8, [[None, "F", 1, 0]]], [16, []]]),
 ]
 
 
-def gen_valid(rng, size, mode=None, maxgap=3, names=(1, 2, 3, 4), p_delay=0.25, samepoint=False):
+def gen_valid(rng, size, mode=None, maxgap=3, names=(1, 2, 3, 4), p_delay=0.25, samepoint=False, hub=False):
     """A valid history built on the time axis, then distributed over file rows."""
     ntp = rng.randint(1, size)
     t, times = rng.choice([0, 0, 4, 8]), []
@@ -524,20 +530,16 @@ def gen_valid(rng, size, mode=None, maxgap=3, names=(1, 2, 3, 4), p_delay=0.25, 
             row_times += [t] * rng.choice([1, 1, 1, 1, 2, 2, 3])
     rows = [[t, []] for t in row_times]
     for t, it in placed:
-        same = len(it) == 5
         it = it[:4]
         earlier = [i for i, (rt, _) in enumerate(rows) if rt < t]
-        if not same and earlier and (t in virtual or rng.random() < p_delay):
-            i = rng.choice(earlier)
+        if earlier and (t in virtual or rng.random() < p_delay):
+            # hub: most delayed groups are written in the FIRST row, so one row holds several Delay groups
+            i = earlier[0] if (hub and rng.random() < 0.8) else rng.choice(earlier)
             it[0] = t - rows[i][0]
             rows[i][1].append(it)
         else:
             cands = [i for i, (rt, _) in enumerate(rows) if rt == t]
-            if same:   # all markers of this name of this time point in ONE row, in this order
-                i = cands[0]
-            else:
-                i = rng.choice(cands)
-            rows[i][1].append(it)
+            rows[rng.choice(cands)][1].append(it)
     if mode is None:
         mode = rng.choice([0, 0, 0, 1, 1, 2])
     return mk(rows, mode=mode, blank=rng.random() < 0.2)
@@ -603,14 +605,19 @@ def run(tier, seed, res, model_ok=True, proof_ok=True):
     quick = tier == "quick"
     cases = [dict(c) for c in CORPUS]
     exh = gen_exhaustive(tier)
+    n_exh_full = len(exh)
+    if quick:
+        # the quick tier draws a deterministic sample of the exhaustive families from the seed; thorough runs them all
+        exh = rng.sample(exh, 9000 if proof_ok else 25000)
     n_exh = len(exh)
     cases += exh
-    nval = 6000 if quick else 40000
+    nval = 5000 if quick else 40000
     if not proof_ok:
         nval *= 3
     for i in range(nval):
         size = rng.choice([2, 3, 4, 5, 6, 8, 12]) if i % 10 else rng.choice([20, 40, 80])
-        cases.append(gen_valid(rng, size, samepoint=(i % 7 == 0)))
+        cases.append(gen_valid(rng, size, samepoint=(i % 7 == 0), hub=(i % 4 == 1),
+                               p_delay=(0.6 if i % 4 == 1 else 0.25)))
     for i in range(nval // 6):
         cases.append(gen_malformed(rng, rng.choice([2, 3, 4, 6, 10])))
     # VERIF_C20_FRACTION=0.1 keeps the corpus and every 10th generated case (a subset of the full run; used for
@@ -635,6 +642,7 @@ def run(tier, seed, res, model_ok=True, proof_ok=True):
         for n, c in enumerate(cases):
             c["n"] = n
             c["tmp"] = tmp
+        env()      # import hed and load the schema once, before the Pool forks
         with Pool(int(C.JOBS)) as pool:
             outs = pool.map(work_one, list(zip(cases, mods, idmaps)), chunksize=100)
     finally:
@@ -650,27 +658,27 @@ def run(tier, seed, res, model_ok=True, proof_ok=True):
         for k in o["hist"]:
             hist[k] += 1
         if o["diffs"] is None:
-            skipped += o["skipped"]
+            skipped += 1          # n/a onsets: no integer history for the model
             continue
         compared += 1
         if o["diffs"]:
             disagreements += 1
             if not o["bad"]:
                 res.violation("correspondence", c, "; ".join(o["diffs"]), no_input=True)
-    hist["tie-sensitive-skipped"] = skipped
+    hist["not-modelled(n/a onset)"] = skipped
     distinct = len({json.dumps(c["rows"]) for c in cases if nontrivial(c) and is_valid(c)})
     return {
         "evaluations": len(cases),
         "distinct_nontrivial": distinct,
-        "rule": f"corpus + ALL {n_exh} histories over an 11-item alphabet (Onset/Offset of two names, two Durations, "
+        "rule": f"corpus + {'a seeded sample of ' if quick else 'ALL '}{n_exh} of the {n_exh_full} histories over an 11-item alphabet (Onset/Offset of two names, two Durations, "
                 "plain, Delay-shifted Onset/Offset/Duration/plain) with 2 rows x <=2 items and 3 rows x <=1 item and "
                 "onset gaps {0,1/2 s,1 s}" + ("" if quick else " and 4 rows x <=1 item") +
                 f" + {nval} random valid histories (1-80 time points, 4 names, equal-onset rows, 25% delayed groups, "
-                f"3 input modes) + {nval // 6} malformed (unordered, n/a onset, stray Offset); non-trivial = valid, "
+                f"every 4th with 60% delayed groups written mostly in one row, unconvertible Delay units, 3 input modes) + {nval // 6} malformed (unordered, n/a onset, stray Offset); non-trivial = valid, "
                 ">= 2 rows and at least one Onset or Duration process",
         "samples": [cases[0]["rows"], cases[min(len(CORPUS) + 4321, len(cases) - 1)]["rows"],
                     cases[len(cases) * 9 // 10]["rows"], cases[-1]["rows"]],
-        "exhaustive": frac >= 1,
+        "exhaustive": frac >= 1 and not quick,
         "exhaustive_scope": "bounded enumeration named in `rule`; the theorems are unbounded",
         "disagreements_checked": disagreements,
         "correspondence_cases": compared,
